@@ -736,6 +736,256 @@ pub proof fn lemma_side_child<P: Prefix, T>(t: Seq<Node<P, T>>, x: Seq<bool>, i:
     }
 }
 
+// ---- annotated stack: longest-prefix matches carried along (C08), remaining entries, step relation, termination measure ----
+
+/// the l-side / r-side node sitting exactly at the entry's key (None: that view has no node there)
+pub open spec fn ent_l(e: Ent) -> Option<usize> {
+    match e { Ent::Both(l, _) => Some(l), Ent::FirstL(l, _) => Some(l), Ent::OnlyL(l) => Some(l), _ => None }
+}
+pub open spec fn ent_r(e: Ent) -> Option<usize> {
+    match e { Ent::Both(_, r) => Some(r), Ent::FirstR(_, r) => Some(r), Ent::OnlyR(r) => Some(r), _ => None }
+}
+
+/// own entry of node i if it stores a value, else the inherited match (what the `get_lpm_*` closures compute)
+pub open spec fn lpm_or<'a, P: Prefix, T>(t: Seq<Node<P, T>>, i: usize, inh: Option<(&'a P, &'a T)>) -> Option<(&'a P, &'a T)> {
+    if t[i as int].value.is_some() { Some((&t[i as int].prefix, &t[i as int].value.unwrap())) } else { inh }
+}
+pub open spec fn ann<'a, P: Prefix, T>(t: Seq<Node<P, T>>, c: Option<usize>, inh: Option<(&'a P, &'a T)>) -> Option<(&'a P, &'a T)> {
+    match c { Some(i) => lpm_or(t, i, inh), None => inh }
+}
+
+/// node n holds the longest prefix stored in view (t, x) that covers key k
+pub open spec fn vlpm_at<P: Prefix, T>(t: Seq<Node<P, T>>, x: Seq<bool>, k: Seq<bool>, n: int) -> bool {
+    vin(t, x, n) && t[n].value.is_some() && pre(kb(t, n), k)
+        && (forall|m: int| #![trigger tlive(t).contains(m)] vin(t, x, m) && t[m].value.is_some() && pre(kb(t, m), k) ==> kb(t, m).len() <= kb(t, n).len())
+}
+
+/// [C08] res is the longest-prefix match of key k among the entries stored in view (t, x): None exactly when nothing stored covers k
+pub open spec fn vlpm<'a, P: Prefix, T>(t: Seq<Node<P, T>>, x: Seq<bool>, k: Seq<bool>, res: Option<(&'a P, &'a T)>) -> bool {
+    match res {
+        Some(e) => exists|n: int| #![trigger tlive(t).contains(n)] vlpm_at(t, x, k, n) && *e.0 == t[n].prefix && *e.1 == t[n].value.unwrap(),
+        None => forall|n: int| #![trigger tlive(t).contains(n)] vin(t, x, n) && pre(kb(t, n), k) ==> t[n].value.is_none(),
+    }
+}
+
+/// descending from key kx to key kc: the only view node that covers kc but not kx is c
+pub proof fn lemma_lpm_down<'a, P: Prefix, T>(t: Seq<Node<P, T>>, x: Seq<bool>, kx: Seq<bool>, kc: Seq<bool>, inh: Option<(&'a P, &'a T)>, c: Option<usize>)
+    requires
+        vlpm(t, x, kx, inh), pre(kx, kc),
+        c.is_some() ==> vin(t, x, c.unwrap() as int) && kb(t, c.unwrap() as int) =~= kc,
+        forall|n: int| #![trigger tlive(t).contains(n)] vin(t, x, n) && pre(kb(t, n), kc) && !pre(kb(t, n), kx) ==> c.is_some() && c.unwrap() as int == n,
+    ensures vlpm(t, x, kc, ann(t, c, inh))
+{
+    if c.is_some() && t[c.unwrap() as int].value.is_some() {
+        let i = c.unwrap() as int;
+        lemma_pre_refl(kc);
+        assert(vlpm_at(t, x, kc, i));
+    } else {
+        match inh {
+            Some(e) => {
+                let n0 = choose|n: int| #![trigger tlive(t).contains(n)] vlpm_at(t, x, kx, n) && *e.0 == t[n].prefix && *e.1 == t[n].value.unwrap();
+                lemma_pre_trans(kb(t, n0), kx, kc);
+                assert(vlpm_at(t, x, kc, n0));
+            },
+            None => {},
+        }
+    }
+}
+
+/// at the start of a traversal nothing is inherited: no view node covers kc except c
+pub proof fn lemma_lpm_init<P: Prefix, T>(t: Seq<Node<P, T>>, x: Seq<bool>, kc: Seq<bool>, c: Option<usize>)
+    requires
+        c.is_some() ==> vin(t, x, c.unwrap() as int) && kb(t, c.unwrap() as int) =~= kc,
+        forall|n: int| #![trigger tlive(t).contains(n)] vin(t, x, n) && pre(kb(t, n), kc) ==> c.is_some() && c.unwrap() as int == n,
+    ensures vlpm(t, x, kc, ann(t, c, None))
+{
+    if c.is_some() && t[c.unwrap() as int].value.is_some() {
+        let i = c.unwrap() as int;
+        lemma_pre_refl(kc);
+        assert(vlpm_at(t, x, kc, i));
+    }
+}
+
+/// the view nodes found at the key of an entry
+pub proof fn lemma_ent_at<P: Prefix, L, R>(tl: Seq<Node<P, L>>, tr: Seq<Node<P, R>>, xa: Seq<bool>, xb: Seq<bool>, e: Ent)
+    requires twf(tl), twf(tr), ent_ok(tl, tr, xa, xb, e)
+    ensures
+        ent_l(e).is_some() ==> vin(tl, xa, ent_l(e).unwrap() as int) && kb(tl, ent_l(e).unwrap() as int) =~= ent_key(tl, tr, e) && ent_l(e).unwrap() < tl.len(),
+        ent_r(e).is_some() ==> vin(tr, xb, ent_r(e).unwrap() as int) && kb(tr, ent_r(e).unwrap() as int) =~= ent_key(tl, tr, e) && ent_r(e).unwrap() < tr.len(),
+        ent_l(e).is_some() || ent_r(e).is_some(),
+        forall|n: int| #![trigger tlive(tl).contains(n)] vin(tl, xa, n) && kb(tl, n) =~= ent_key(tl, tr, e) ==> ent_l(e).is_some() && ent_l(e).unwrap() as int == n,
+        forall|m: int| #![trigger tlive(tr).contains(m)] vin(tr, xb, m) && kb(tr, m) =~= ent_key(tl, tr, e) ==> ent_r(e).is_some() && ent_r(e).unwrap() as int == m,
+{
+    let k = ent_key(tl, tr, e);
+    lemma_twf_live(tl); lemma_twf_live(tr);
+    lemma_pre_refl(k);
+    if ent_l(e).is_some() { lemma_live_bound(tl, ent_l(e).unwrap() as int); }
+    if ent_r(e).is_some() { lemma_live_bound(tr, ent_r(e).unwrap() as int); }
+    assert forall|n: int| #![trigger tlive(tl).contains(n)] vin(tl, xa, n) && kb(tl, n) =~= k implies ent_l(e).is_some() && ent_l(e).unwrap() as int == n by {
+        match e {
+            Ent::Both(l, _) => { lemma_uniq(tl, tlive(tl), l as int, n); },
+            Ent::FirstL(l, _) => { lemma_uniq(tl, tlive(tl), l as int, n); },
+            Ent::OnlyL(l) => { lemma_uniq(tl, tlive(tl), l as int, n); },
+            Ent::FirstR(l, r) => { assert(pre(kb(tl, l as int), kb(tl, n))); },
+            Ent::OnlyR(r) => {},
+        }
+    }
+    assert forall|m: int| #![trigger tlive(tr).contains(m)] vin(tr, xb, m) && kb(tr, m) =~= k implies ent_r(e).is_some() && ent_r(e).unwrap() as int == m by {
+        match e {
+            Ent::Both(_, r) => { lemma_uniq(tr, tlive(tr), r as int, m); },
+            Ent::FirstR(_, r) => { lemma_uniq(tr, tlive(tr), r as int, m); },
+            Ent::OnlyR(r) => { lemma_uniq(tr, tlive(tr), r as int, m); },
+            Ent::FirstL(l, r) => { assert(pre(kb(tr, r as int), kb(tr, m))); },
+            Ent::OnlyL(l) => {},
+        }
+    }
+}
+
+/// inside the region described by cs, the only view nodes covering the key of cs[j] are the nodes of cs[j] itself
+pub proof fn lemma_between<P: Prefix, L, R>(tl: Seq<Node<P, L>>, tr: Seq<Node<P, R>>, xa: Seq<bool>, xb: Seq<bool>, z: Seq<bool>, st: bool, cs: Seq<Ent>, j: int)
+    requires twf(tl), twf(tr), ni_post(tl, tr, xa, xb, z, st, cs), 0 <= j < cs.len()
+    ensures
+        ent_ok(tl, tr, xa, xb, cs[j]), in_reg(z, st, ent_key(tl, tr, cs[j])),
+        forall|n: int| #![trigger tlive(tl).contains(n)] vin(tl, xa, n) && pre(kb(tl, n), ent_key(tl, tr, cs[j])) && in_reg(z, st, kb(tl, n)) ==> ent_l(cs[j]).is_some() && ent_l(cs[j]).unwrap() as int == n,
+        forall|m: int| #![trigger tlive(tr).contains(m)] vin(tr, xb, m) && pre(kb(tr, m), ent_key(tl, tr, cs[j])) && in_reg(z, st, kb(tr, m)) ==> ent_r(cs[j]).is_some() && ent_r(cs[j]).unwrap() as int == m,
+{
+    reveal(ents_ok); reveal(ents_cover);
+    let kc = ent_key(tl, tr, cs[j]);
+    lemma_ent_at(tl, tr, xa, xb, cs[j]);
+    assert forall|n: int| #![trigger tlive(tl).contains(n)] vin(tl, xa, n) && pre(kb(tl, n), kc) && in_reg(z, st, kb(tl, n)) implies ent_l(cs[j]).is_some() && ent_l(cs[j]).unwrap() as int == n by {
+        let k1 = choose|k: int| 0 <= k < cs.len() && pre(ent_key(tl, tr, #[trigger] cs[k]), kb(tl, n));
+        lemma_pre_trans(ent_key(tl, tr, cs[k1]), kb(tl, n), kc);
+        if k1 < j { assert(incomparable(ent_key(tl, tr, cs[k1]), ent_key(tl, tr, cs[j]))); }
+        if j < k1 { assert(incomparable(ent_key(tl, tr, cs[j]), ent_key(tl, tr, cs[k1]))); }
+        lemma_pre_antisym(kb(tl, n), kc);
+    }
+    assert forall|m: int| #![trigger tlive(tr).contains(m)] vin(tr, xb, m) && pre(kb(tr, m), kc) && in_reg(z, st, kb(tr, m)) implies ent_r(cs[j]).is_some() && ent_r(cs[j]).unwrap() as int == m by {
+        let k1 = choose|k: int| 0 <= k < cs.len() && pre(ent_key(tl, tr, #[trigger] cs[k]), kb(tr, m));
+        lemma_pre_trans(ent_key(tl, tr, cs[k1]), kb(tr, m), kc);
+        if k1 < j { assert(incomparable(ent_key(tl, tr, cs[k1]), ent_key(tl, tr, cs[j]))); }
+        if j < k1 { assert(incomparable(ent_key(tl, tr, cs[j]), ent_key(tl, tr, cs[k1]))); }
+        lemma_pre_antisym(kb(tr, m), kc);
+    }
+}
+
+/// [C08] annotations of the entries pushed below a popped entry with key x and annotations (ll, lr)
+pub proof fn lemma_ann_child<'a, P: Prefix, L, R>(tl: Seq<Node<P, L>>, tr: Seq<Node<P, R>>, xa: Seq<bool>, xb: Seq<bool>, x: Seq<bool>, cs: Seq<Ent>, j: int,
+        ll: Option<(&'a P, &'a L)>, lr: Option<(&'a P, &'a R)>)
+    requires twf(tl), twf(tr), ni_post(tl, tr, xa, xb, x, true, cs), 0 <= j < cs.len(), vlpm(tl, xa, x, ll), vlpm(tr, xb, x, lr)
+    ensures
+        vlpm(tl, xa, ent_key(tl, tr, cs[j]), ann(tl, ent_l(cs[j]), ll)),
+        vlpm(tr, xb, ent_key(tl, tr, cs[j]), ann(tr, ent_r(cs[j]), lr)),
+{
+    let kc = ent_key(tl, tr, cs[j]);
+    lemma_between(tl, tr, xa, xb, x, true, cs, j);
+    lemma_ent_at(tl, tr, xa, xb, cs[j]);
+    assert forall|n: int| #![trigger tlive(tl).contains(n)] vin(tl, xa, n) && pre(kb(tl, n), kc) && !pre(kb(tl, n), x) implies spre(x, kb(tl, n)) by {
+        lemma_pre_comparable(kb(tl, n), x, kc);
+    }
+    assert forall|m: int| #![trigger tlive(tr).contains(m)] vin(tr, xb, m) && pre(kb(tr, m), kc) && !pre(kb(tr, m), x) implies spre(x, kb(tr, m)) by {
+        lemma_pre_comparable(kb(tr, m), x, kc);
+    }
+    lemma_lpm_down(tl, xa, x, kc, ll, ent_l(cs[j]));
+    lemma_lpm_down(tr, xb, x, kc, lr, ent_r(cs[j]));
+}
+
+/// [C08] annotations of the initial entries of a traversal
+pub proof fn lemma_ann_init<P: Prefix, L, R>(tl: Seq<Node<P, L>>, tr: Seq<Node<P, R>>, xa: Seq<bool>, xb: Seq<bool>, cs: Seq<Ent>, j: int)
+    requires twf(tl), twf(tr), ni_post(tl, tr, xa, xb, Seq::<bool>::empty(), false, cs), 0 <= j < cs.len()
+    ensures
+        vlpm(tl, xa, ent_key(tl, tr, cs[j]), ann::<P, L>(tl, ent_l(cs[j]), None)),
+        vlpm(tr, xb, ent_key(tl, tr, cs[j]), ann::<P, R>(tr, ent_r(cs[j]), None)),
+{
+    let kc = ent_key(tl, tr, cs[j]);
+    lemma_between(tl, tr, xa, xb, Seq::<bool>::empty(), false, cs, j);
+    lemma_ent_at(tl, tr, xa, xb, cs[j]);
+    lemma_lpm_init(tl, xa, kc, ent_l(cs[j]));
+    lemma_lpm_init(tr, xb, kc, ent_r(cs[j]));
+}
+
+/// stored entries of the two views that the stack still has to deliver
+pub open spec fn rem_l<P: Prefix, L, R>(tl: Seq<Node<P, L>>, tr: Seq<Node<P, R>>, xa: Seq<bool>, es: Seq<Ent>, n: int) -> bool {
+    vin(tl, xa, n) && tl[n].value.is_some() && kcov(tl, tr, es, kb(tl, n))
+}
+pub open spec fn rem_r<P: Prefix, L, R>(tl: Seq<Node<P, L>>, tr: Seq<Node<P, R>>, xb: Seq<bool>, es: Seq<Ent>, m: int) -> bool {
+    vin(tr, xb, m) && tr[m].value.is_some() && kcov(tl, tr, es, kb(tr, m))
+}
+
+/// one delivered key x: it precedes every other remaining entry and exactly the entries at x leave the remaining set
+pub open spec fn yields_key<P: Prefix, L, R>(tl: Seq<Node<P, L>>, tr: Seq<Node<P, R>>, xa: Seq<bool>, xb: Seq<bool>, es0: Seq<Ent>, es1: Seq<Ent>, x: Seq<bool>) -> bool {
+    &&& (forall|n: int| #![trigger tlive(tl).contains(n)] rem_l(tl, tr, xa, es0, n) && !(kb(tl, n) =~= x) ==> lex_lt(x, kb(tl, n)))
+    &&& (forall|m: int| #![trigger tlive(tr).contains(m)] rem_r(tl, tr, xb, es0, m) && !(kb(tr, m) =~= x) ==> lex_lt(x, kb(tr, m)))
+    &&& (forall|n: int| #![trigger tlive(tl).contains(n)] rem_l(tl, tr, xa, es1, n) == (rem_l(tl, tr, xa, es0, n) && !(kb(tl, n) =~= x)))
+    &&& (forall|m: int| #![trigger tlive(tr).contains(m)] rem_r(tl, tr, xb, es1, m) == (rem_r(tl, tr, xb, es0, m) && !(kb(tr, m) =~= x)))
+}
+
+/// the remaining sets of two stacks agree (only value-less positions were skipped in between)
+pub open spec fn same_rem<P: Prefix, L, R>(tl: Seq<Node<P, L>>, tr: Seq<Node<P, R>>, xa: Seq<bool>, xb: Seq<bool>, es0: Seq<Ent>, es1: Seq<Ent>) -> bool {
+    &&& (forall|n: int| #![trigger tlive(tl).contains(n)] rem_l(tl, tr, xa, es1, n) == rem_l(tl, tr, xa, es0, n))
+    &&& (forall|m: int| #![trigger tlive(tr).contains(m)] rem_r(tl, tr, xb, es1, m) == rem_r(tl, tr, xb, es0, m))
+}
+
+pub open spec fn no_rem<P: Prefix, L, R>(tl: Seq<Node<P, L>>, tr: Seq<Node<P, R>>, xa: Seq<bool>, xb: Seq<bool>, es: Seq<Ent>) -> bool {
+    &&& (forall|n: int| #![trigger tlive(tl).contains(n)] !rem_l(tl, tr, xa, es, n))
+    &&& (forall|m: int| #![trigger tlive(tr).contains(m)] !rem_r(tl, tr, xb, es, m))
+}
+
+// termination measure: number of view nodes still covered by the stack
+pub open spec fn icnt(f: spec_fn(int) -> bool, n: int) -> int
+    decreases n
+{
+    if n <= 0 { 0 } else { icnt(f, n - 1) + (if f(n - 1) { 1int } else { 0int }) }
+}
+
+pub proof fn lemma_icnt(f: spec_fn(int) -> bool, g: spec_fn(int) -> bool, n: int, k: int)
+    requires forall|i: int| 0 <= i < n && #[trigger] g(i) ==> f(i)
+    ensures 0 <= icnt(g, n) <= icnt(f, n), (0 <= k < n && f(k) && !g(k)) ==> icnt(g, n) < icnt(f, n)
+    decreases n
+{
+    if n > 0 { lemma_icnt(f, g, n - 1, k); }
+}
+
+pub open spec fn cov_l<P: Prefix, L, R>(tl: Seq<Node<P, L>>, tr: Seq<Node<P, R>>, xa: Seq<bool>, es: Seq<Ent>) -> spec_fn(int) -> bool {
+    |n: int| vin(tl, xa, n) && kcov(tl, tr, es, kb(tl, n))
+}
+pub open spec fn cov_r<P: Prefix, L, R>(tl: Seq<Node<P, L>>, tr: Seq<Node<P, R>>, xb: Seq<bool>, es: Seq<Ent>) -> spec_fn(int) -> bool {
+    |m: int| vin(tr, xb, m) && kcov(tl, tr, es, kb(tr, m))
+}
+pub open spec fn ucnt<P: Prefix, L, R>(tl: Seq<Node<P, L>>, tr: Seq<Node<P, R>>, xa: Seq<bool>, xb: Seq<bool>, es: Seq<Ent>) -> int {
+    icnt(cov_l(tl, tr, xa, es), tl.len() as int) + icnt(cov_r(tl, tr, xb, es), tr.len() as int)
+}
+
+/// [C05/C06/C07] one step of a traversal: the top entry (key x) is popped, entries cs for everything strictly below x are pushed
+pub proof fn lemma_stack_step<P: Prefix, L, R>(tl: Seq<Node<P, L>>, tr: Seq<Node<P, R>>, xa: Seq<bool>, xb: Seq<bool>, es: Seq<Ent>, cs: Seq<Ent>)
+    requires
+        ss_ok(tl, tr, xa, xb, es), es.len() > 0,
+        ni_post(tl, tr, xa, xb, ent_key(tl, tr, es.last()), true, cs),
+    ensures
+        ss_ok(tl, tr, xa, xb, es.drop_last() + cs),
+        yields_key(tl, tr, xa, xb, es, es.drop_last() + cs, ent_key(tl, tr, es.last())),
+        kcov(tl, tr, es, ent_key(tl, tr, es.last())),
+        0 <= ucnt(tl, tr, xa, xb, es.drop_last() + cs) < ucnt(tl, tr, xa, xb, es),
+{
+    let e = es.last();
+    let x = ent_key(tl, tr, e);
+    let es2 = es.drop_last() + cs;
+    lemma_stack_replace(tl, tr, xa, xb, es, cs);
+    lemma_ent_at(tl, tr, xa, xb, e);
+    lemma_pre_refl(x);
+    assert(es[es.len() - 1] == e);
+    assert(kcov(tl, tr, es, x));
+    let fl = cov_l(tl, tr, xa, es); let gl = cov_l(tl, tr, xa, es2);
+    let fr = cov_r(tl, tr, xb, es); let gr = cov_r(tl, tr, xb, es2);
+    assert forall|i: int| 0 <= i < tl.len() && #[trigger] gl(i) implies fl(i) by { assert(tlive(tl).contains(i)); }
+    assert forall|i: int| 0 <= i < tr.len() && #[trigger] gr(i) implies fr(i) by { assert(tlive(tr).contains(i)); }
+    let wl = if ent_l(e).is_some() { ent_l(e).unwrap() as int } else { -1 };
+    let wr = if ent_r(e).is_some() { ent_r(e).unwrap() as int } else { -1 };
+    if ent_l(e).is_some() { assert(tlive(tl).contains(wl)); assert(fl(wl) && !gl(wl)); }
+    if ent_r(e).is_some() { assert(tlive(tr).contains(wr)); assert(fr(wr) && !gr(wr)); }
+    lemma_icnt(fl, gl, tl.len() as int, wl);
+    lemma_icnt(fr, gr, tr.len() as int, wr);
+}
+
 // ---- one-sided descent, mirrored: the right view's node r is strictly above the left view's node l (entry FirstR(l, r)) ----
 // (mechanical mirror image of the lemma_fl_* family, generated by tools/mirror_setops.py)
 
